@@ -467,6 +467,7 @@ func runC19(e *Env) {
 			rec, pv, panicked := Serve(router, NewReq("GET", "/x"))
 			t.Count("calls.total", 1)
 			t.NonTrivial(call.Desc)
+			t.Tracef("%s -> writer [%s] Content-Type %q body %q returned err=%v ctx errors=%d", call.Desc, rec.CallLog(), rec.H.Get("Content-Type"), truncate(rec.Body.String(), 80), retErr, ctxErrs)
 			if panicked {
 				t.Fail("helper-panics", "%s panicked: %v", call.Desc, pv)
 				return
